@@ -144,7 +144,7 @@ pub fn play_session(d: &mut dyn Driver, rng: &mut StdRng, starts: &mut gen::Star
         if rng.gen_range(0..6) == 0 { extra.push(Gui::IsReady); }
         if rng.gen_range(0..8) == 0 { extra.push(Gui::Debug(rng.gen_bool(0.5))); }
         let (go, stop) = random_go(rng, &cur, true);
-        let c = Cycle { new_game: i == 0 || rng.gen_range(0..15) == 0, position: Some((fen.clone(), moves.clone())), go, stop_after_us: stop, extra };
+        let c = Cycle { new_game: i == 0 || rng.gen_range(0..15) == 0, position: Some((fen.clone(), moves.clone())), go, stop_after_us: stop, extra, during: random_during(rng) };
         script_log.push(format!("{} | {}", Gui::Position { fen: fen.clone(), moves: moves.clone() }.text(), Gui::Go(c.go.clone()).text()));
         let replay = json!({"kind":"c16-session","script": script_log.iter().rev().take(6).collect::<Vec<_>>()});
         match run_cycle(d, &c) {
@@ -180,7 +180,11 @@ pub fn run(args: &monlib::Args, rep: &mut Report) {
         let cycles = rng.gen_range(5..=40);
         let via_app = i % 2 == 0 && app.is_some();
         if via_app {
-            match App::spawn(app.as_ref().unwrap(), &[]) {
+            // every fourth app session runs the hooked build with a short poll interval, so that the
+            // periodic `info time .. nodes ..` lines (normally one per 100 000 nodes) are frequent
+            let hooked = args.rest.get("app-hooked").cloned().filter(|_| i % 8 == 6);
+            let spawned = match &hooked { Some(h) => { rep.count("app_sessions_hooked_poll_1000"); App::spawn(h, &[("INKAYAKU_VERIF_POLL", "1000".to_string())]) } None => App::spawn(app.as_ref().unwrap(), &[]) };
+            match spawned {
                 Ok(mut a) => {
                     play_session(&mut a, &mut rng, &mut starts, cycles, rep);
                     let code = a.finish(Duration::from_secs(20));
